@@ -140,6 +140,20 @@ def run_dist(r, case, g):
                     r.viol("not_normalised", "%s probabilities do not sum to one" % label, total=tot, **det)
                 else:
                     r.cell(label, shape, "normalised")
+                # binary data as it is usually stored (bytes, integers, booleans - the library's own mask helpers return uint8): the
+                # outcomes 0 / 1 are the same outcomes, and their probabilities the same numbers
+                ref_lp = lp(pts).double()
+                for dt_ in (torch.uint8, torch.int64, torch.bool):
+                    r.ev()
+                    r.count("integer_outcome_checks")
+                    try:
+                        got_lp = lp(pts.to(dt_)).double()
+                    except Exception as e:
+                        r.viol("log_prob_raises", "%s.log_prob raises on a valid call" % label, outcome_dtype=str(dt_), exc=repr(e)[:200], **det)
+                        continue
+                    if got_lp.shape != ref_lp.shape or float((got_lp - ref_lp).abs().max()) > 1e-6:
+                        r.viol("not_normalised", "%s probabilities do not sum to one" % label, outcome_dtype=str(dt_),
+                               total=float(torch.exp(got_lp).sum()), max_logprob_diff=float((got_lp - ref_lp).abs().max()), **det)
             elif P == 1:
                 I1, I2, est, _ = q.integrate_1d(lambda x: lp(x), ("R",), 100000)
                 _judge_int(r, label, I2, est, 1e-4, 1e-3, shape, det)
